@@ -18,6 +18,7 @@ import (
 	"strings"
 	"sync"
 	"testing"
+	"verif/harness/core"
 
 	"pgregory.net/rapid"
 )
@@ -186,6 +187,9 @@ func (w *worker) finish() {
 		binary.LittleEndian.PutUint64(hb[8*i:], h)
 	}
 	os.WriteFile(out+".hashes", hb, 0o644)
+	for k, v := range core.HugeDrawn {
+		w.classes["generated:"+k] += v // drawn (shrinking included), not necessarily evaluated distinct
+	}
 	st := map[string]interface{}{
 		"property": w.id, "shard": shard(), "evaluations": w.evals, "distinct_nontrivial": len(hs),
 		"classes": w.classes, "excluded": w.excl, "samples": w.samples, "extra": w.extra, "failures": w.nFail,
